@@ -79,6 +79,9 @@ def cases(tier, seed):
                 for aij in AIJ0:
                     for axis in AXES:
                         out.append({"kind": "ldot", "pair": pair, "A_IJ0": aij, "angle0": 0.3, "axis": axis, "seed": seed})
+    # E4 cross-check of the reference automaton by TLC + conformance replay (DESIGN 1, E4)
+    for N, K, axis, a0 in ([(16, 3, 2, 0.3)] if tier == "quick" else [(16, 3, 2, 0.3), (12, 2, 0, -2.0), (20, 4, 1, 7.0), (24, 5, 2, 0.0)]):
+        out.append({"kind": "tlc", "N": N, "K": K, "B": 2 * N + 8, "axis": axis, "angle0": a0})
     return out
 
 
@@ -522,7 +525,27 @@ def check_ldot(case):
     return {"fails": _dedup(fails), "nontrivial": evals >= 10, "evals": evals, "stats": stats, "outcome": "ldot"}
 
 
+def check_tlc(case):
+    """E4: TLC explores models/RevoluteTracker.tla; every model edge the implementation can take is replayed on a real joint"""
+    from vp.scen import tlc_revolute
+
+    rep = tlc_revolute.conformance(N=case["N"], K=case["K"], B=case["B"], axis=case["axis"], angle0=case["angle0"])
+    fails = []
+    if not rep.get("ok"):
+        if rep.get("error"):
+            raise RuntimeError("harness: " + rep["error"])  # TLC itself failed: a broken harness, not a statement about cardillo
+        for msg in rep["fails"][:3]:
+            fails.append({"site": "implementation leaves the TLC-checked tracker model (conformance replay)", "msg": msg, "data": {"N": case["N"]}})
+    return {"fails": _dedup(fails), "nontrivial": rep.get("edges_validated_against_impl", 0) > 50, "evals": rep.get("edges_validated_against_impl", 0),
+            "states": rep.get("model_states", 0), "transitions": rep.get("model_edges", 0), "traces": rep.get("edges_validated_against_impl", 0),
+            "outcome": "tlc", "stats": {"tlc_model_states": rep.get("model_states", 0), "tlc_model_edges": rep.get("model_edges", 0),
+                                         "tlc_edges_replayed_on_impl": rep.get("edges_validated_against_impl", 0),
+                                         "tlc_model_states_unreachable_for_impl": rep.get("model_states_unreachable_for_impl", 0)}}
+
+
 def check(case):
+    if case["kind"] == "tlc":
+        return check_tlc(case)
     if case["kind"] == "lattice":
         return check_lattice(case)
     if case["kind"] == "intquat":
